@@ -213,7 +213,12 @@ func (w *World) CheckProperty(prop, tier string, timeoutMs int, dump string, ver
 		}
 		vc := NewVC(w.P, w.C, fn, fc)
 		if err := vc.Generate(); err != nil {
-			r.GenErrors = append(r.GenErrors, err.Error())
+			// the contract no longer fits the code (a name it uses is gone, a site moved out of scope ...):
+			// every clause of this function is undecided, which is reported as a failed binding obligation
+			o := &Obligation{Name: n + "/contract-binding#0", Func: n, Kind: "contract-binding", Tags: []string{prop}, Status: "failed",
+				Text:   "the contract of this function can no longer be bound to its code",
+				Detail: map[string]string{"why": err.Error()}, File: fc.File, Line: fc.Line}
+			r.Structural = append(r.Structural, o)
 			continue
 		}
 		r.VCs = append(r.VCs, vc)
